@@ -5,8 +5,8 @@ import os, sys
 sys.path.insert(0, os.path.dirname(os.path.abspath(__file__)))
 import bodies2 as _b2
 from bodies2 import OPT_HINT
-from derived_common import newtype_items, r17_chunks, r17_iter
-LIST_HINTS = []
+from derived_common import newtype_items, r17_chunks, r17_iter, PARITY_PARAM
+LIST_HINTS = PARITY_PARAM
 
 F_HS = "src/tls_handshake.rs"
 _types = [it for it in _b2.UNIT["items"] if it["kind"] in ("struct", "enum", "newtype_enum")]
